@@ -49,6 +49,7 @@ void abtmc_thread_join(int tid) { pthread_join(thr_[tid], NULL); }
 int abtmc_self(void) { return 0; }
 void abtmc_after_release(const volatile void *a) { (void)a; }
 void abtmc_stack_init(void *top, size_t size) { (void)top; (void)size; }
+void abtmc_set_invariant(void (*fn)(void)) { (void)fn; }
 void abtmc_window_begin(void) {}
 void abtmc_window_end(void) {}
 int abtmc_choose(int n, int kind)
